@@ -533,6 +533,44 @@ def run_check(prop, tier, seed, replay=None, jobs=None):
             except Exception:  # noqa: BLE001 - shrinking is best effort
                 pass
         emit(case, 'property-fails-on-implementation', {'failure': failure, 'signature': sig, 'diffs': r.get('diffs', [])})
+    if corr_breaks and not violations and hasattr(lane, 'widen') and not replay:
+        # widened search seeded from the disagreeing cases: look for an input on which the property itself fails
+        try:
+            _W.setdefault('lane', lane)
+            if 'client' not in _W:
+                _W['client'] = ModelClient()
+            found = None
+            for r in corr_breaks[:6]:
+                for c2 in lane.widen(r['case']):
+                    r2 = eval_case(lane, _W['client'], c2)
+                    fs = [f for f in r2.get('oracle', []) if lane.signature(c2, f) not in open_sigs]
+                    if fs:
+                        found = (c2, fs[0], r2)
+                        break
+                if found:
+                    break
+            if found:
+                c2, failure, r2 = found
+                sig = lane.signature(c2, failure)
+
+                def still2(c, _sig=sig):
+                    rr = eval_case(lane, _W['client'], c)
+                    return any(lane.signature(c, f) == _sig for f in rr.get('oracle', []))
+                try:
+                    small = lane.shrink(c2, still2)
+                    r3 = eval_case(lane, _W['client'], small)
+                    keep = [f for f in r3.get('oracle', []) if lane.signature(small, f) == sig]
+                    if keep:
+                        c2, failure, r2 = small, keep[0], r3
+                except Exception:  # noqa: BLE001
+                    pass
+                emit(c2, 'property-fails-on-implementation',
+                     {'failure': failure, 'signature': sig, 'found_by': 'widened search from a correspondence disagreement',
+                      'diffs': r2.get('diffs', [])})
+        except MachineryError:
+            raise
+        except Exception:  # noqa: BLE001 - the widened search is best effort
+            pass
     if corr_breaks and not violations:
         # correspondence broken on cases where the oracle saw nothing (or only listed findings)
         rest = [r for r in corr_breaks
